@@ -4,7 +4,7 @@ HOOK_COMMITS = []
 
 _NOTE = ("Trusted base: CPython/numpy/scipy float64 semantics, Hypothesis' generators, and the reference oracles in pv/oracles "
          "(each self-checked against a brute-force definition inside the run where one exists). Absence of violations is "
-         "relative to the explored set reported in the evidence file. ")
+         "relative to the explored set reported in the evidence file. Half of the 16 shard processes run under np.errstate(all='ignore'), half under NumPy's default. ")
 
 REGISTRY = {
     "C16": {
@@ -31,9 +31,9 @@ REGISTRY.update({
     },
     "C02": {
         "level": "Same design as C01 with Euclidean / (d-b)/sqrt2 costs: brute-force minimum over all partial matchings (<= 5 points, 6 in the thorough tier), independent assignment reference (own Kuhn-Munkres on the reduced-gain matrix) up to "
-                 "40 points self-checked against the brute force, exhaustive 23409-pair lattice slice, infinite-death handling with warning attribution.",
+                 "40 points self-checked against the brute force, exhaustive 23409-pair lattice slice, infinite-death handling with warning attribution; where the optimum is isolated by construction (a permuted copy moved by <= 3e-6 lattice units) the value is demanded to relative accuracy 1e-9.",
         "technique": "property-based testing (Hypothesis) against brute-force definition + independent-assignment differential reference; exhaustive enumeration of a small lattice slice",
-        "note": _NOTE + "Comparison tolerance 1e-9 * sum |coordinates|.",
+        "note": _NOTE + "Comparison tolerance 1e-9 * sum |coordinates|, except in the isolated-optimum clause (1e-9 of the distance itself).",
     },
     "C06": {
         "level": "A validity predicate (not a fixed expected matching) is evaluated on every matching returned for generated pairs of 0..8 points under 16 hash "
@@ -102,7 +102,7 @@ REGISTRY.update({
                  "decimals x multipliers covers the constructor and each setter. Exploration over histories is the right level: the state space "
                  "(real-valued ranges) is infinite, but inexact quotients are reached by construction in > 30 % of histories.",
         "technique": "model-based / stateful property testing (generated operation histories, invariant after every step) + exhaustive decimal table",
-        "note": _NOTE + "Resolution kept <= 200 per axis (cost bound); histories are JSON op lists interpreted step by step rather than a Hypothesis RuleBasedStateMachine so that the replay file is the history itself.",
+        "note": _NOTE + "Fits mix integer arrays / nested int lists with float diagrams. Resolution kept <= 200 per axis (cost bound); histories are JSON op lists interpreted step by step rather than a Hypothesis RuleBasedStateMachine so that the replay file is the history itself.",
     },
 })
 
@@ -114,7 +114,7 @@ REGISTRY.update({
                  "coordinates, 13 scales, any input order, trailing infinite bar, hom_deg) the returned piecewise-linear functions are compared with the "
                  "k-th-largest-tent definition on a finite set that decides equality everywhere (all candidate breakpoints, returned abscissae, midpoints, "
                  "outside points), together with well-formedness (ordered abscissae, vanishing ends, depth count). Disagreements are attributed to the one "
-                 "listed open finding only when the guarded hook reports that the repeated-bar shortcut fired; anything else is a violation.",
+                 "listed open finding only when the guarded hook reports that the repeated-bar shortcut fired; anything else is a violation. Integer-valued bars are also given as the narrowest integer array that holds them (uint8 ... int32), int64 arrays and nested int lists; 40..120-bar diagrams are judged by a vectorised form of the same oracle.",
         "technique": "property-based testing (Hypothesis) against the mathematical definition, decided exactly per input; hook-based attribution of a known finding",
         "note": _NOTE + "A different defect that only shows on inputs where the shortcut also fires would be attributed to the known finding (stated limit).",
     },
@@ -130,14 +130,14 @@ REGISTRY.update({
                  "leaf functions for exact landscapes, sample arrays for grid landscapes); after every step every pool entry - operands and results alike - "
                  "is compared with its model (exactly, on all breakpoints + midpoints for exact landscapes) and with a deep snapshot taken at creation; "
                  "re-sampling is checked against a hand-written linear interpolation, combinations against the combination of re-sampled values; the "
-                 "documented rejections (division by zero, mismatched degree / grid) must raise ValueError.",
+                 "documented rejections (division by zero, mismatched degree / grid) must raise ValueError. Leaves include lazily computed landscapes, integer-typed sample arrays and diagram landscapes whose depths share list objects (repeated bars).",
         "technique": "model-based / stateful property testing (generated operation histories, invariant after every step) + stateless pair clause",
         "note": _NOTE + "Histories are JSON op lists interpreted step by step (replay file = the history). Pool capped at 15 entries per history.",
     },
     "C10": {
         "level": "Norms of generated landscapes (sign changes at and between breakpoints, flat and nearly flat segments, differences of diagram landscapes, "
                  "grid landscapes) are compared with a closed-form reference integral self-checked against adaptive quadrature; result must be a finite "
-                 "real; homogeneity, (reverse) triangle inequality, ||P-P|| = 0 and the sup-norm stability bound against an independent bottleneck reference.",
+                 "real; homogeneity, (reverse) triangle inequality, ||P-P|| = 0 and the sup-norm stability bound against an independent bottleneck reference; integer-typed critical pairs / int64 samples with heights up to 70000; multiples of diagram landscapes with repeated bars.",
         "technique": "property-based testing (Hypothesis) against a reference integral (differential) + norm laws (metamorphic) + stability inequality",
         "note": _NOTE + "Ordinates below 1e-3 in magnitude and abscissa spacings below 1e-6 are not generated (underflow / overflow of y**(p+1) and slopes is outside the statement).",
     },
@@ -153,7 +153,7 @@ REGISTRY.update({
         "note": _NOTE + "The NumPy RNG state is an input set by the harness (np.random.seed) immediately before each call.",
     },
     "C17": {
-        "level": "The same generated graphs are passed in seven container/sparsity formats x {upper-triangular, symmetric}, relabelled, as mixed-format "
+        "level": "The same generated graphs are passed in twelve container / sparsity / memory-layout formats (nested list, dense C-ordered, Fortran-ordered, strided view, bool, float, read-only, csr / csc / coo / lil matrices, csr_array) x {upper-triangular, symmetric, edges in either triangle}, relabelled, as mixed-format "
                  "collections and with 2..3 connected components; results must bracket the exact distance (of a largest component when disconnected, with "
                  "a warning and no exception), lower bounds must coincide across representations, collection matrices must be symmetric with zero diagonal.",
         "technique": "property-based testing (Hypothesis): differential across representations + exact branch-and-bound oracle",
@@ -164,7 +164,7 @@ REGISTRY.update({
                  "remembers only user-fixed parameters and the most recent fit: learned state after each fit, outputs of each transform (exactly, on the "
                  "grid the model predicts), repeatability, state preservation, element-wise collections, fit_transform == fit;transform.",
         "technique": "model-based / stateful property testing (generated call histories with a reference model)",
-        "note": _NOTE + "User-fixed parameters are those given to the constructor; set_params between fits is not generated.",
+        "note": _NOTE + "User-fixed parameters are those given to the constructor or assigned afterwards (attribute assignment / set_params between fits and transforms, values off the data lattice so that they cannot coincide with a learned bound).",
     },
 })
 
@@ -173,14 +173,14 @@ REGISTRY.update({
         "level": "Model-based call histories over a pool of shared inputs: 19 diagram entry points and the two mGH call styles are invoked in generated "
                  "order; every pooled argument is compared byte-for-byte with a snapshot after every call, earlier calls are re-issued after arbitrary "
                  "other calls and must give bit-identical results (mGH under the same NumPy seed), and every call is repeated on equal-valued inputs in "
-                 "each other accepted form (float64 array / int64, int16, uint8 arrays / nested list); float32 arrays and a diagram with infinite deaths are exercised for purity and repeatability.",
+                 "each other accepted form (float64 array C-ordered / Fortran-ordered / strided view / read-only, int64, int16, uint8 arrays, nested list); float32 arrays and a diagram with infinite deaths are exercised for purity and repeatability; calls on INVALID input (NaN, wrong shape, a bar born after dying, None) are sandwiched between two identical valid calls that must agree bitwise.",
         "technique": "model-based / stateful property testing (generated call histories; snapshot invariant after every step; repeat and representation-swap rules)",
         "note": _NOTE + "Coverage of 'every public entry point' is the table in pv/props/c19.py; the slow 3-D plot_landscape is not included.",
     },
     "C20": {
         "level": "Artists are read back from Agg figures for generated diagrams, option combinations and target axes (current or explicitly not current): "
                  "scatter offsets vs float32 data, infinity line placement, limits, labels, title, legend; for matching plots the multiset of segments on "
-                 "the given axes vs the rows of the matching returned by the distance function, nothing on other axes, distinct style of the bottleneck "
+                 "the given axes vs the rows of the matching returned by the distance function (diagrams with and without infinite deaths), nothing on other axes, distinct style of the bottleneck "
                  "row; 2-D landscape plots line by line.",
         "technique": "property-based testing (Hypothesis) with artist inspection of rendered figures (explicit expected-artist oracle)",
         "note": _NOTE + "Diagrams whose extent is below float32 resolution are excluded; the 3-D plot_landscape is not inspected.",
